@@ -92,6 +92,13 @@ fn cmd_replay(args: &[String]) -> i32 {
     if arg(args, "--unit").is_none() && matches!(prop.as_str(), "C04" | "C05" | "C06" | "C07" | "C08" | "C09" | "C10" | "C12" | "C17" | "C18") {
         units.extend(units::warped_units(&tier));
     }
+    if arg(args, "--unit").is_none() && prop == "C09" {
+        // lattice steps of one or two ulps on top of a large offset: cancellation at the last bit (dispersion must stay >= 0)
+        units.push(units::Unit::new(2f64.powi(-16), 120010000000.0));
+        units.push(units::Unit::new(2f64.powi(-15), 120010000000.0));
+        units.push(units::Unit::new(2f64.powi(-38), 30000.0));
+        units.push(units::Unit::new(1.0, -1000.0)); // negative price levels (shift-covariant kinds only)
+    }
     units.truncate(max_units);
     let lines = read_behaviours(&input);
     let lines: Vec<(u64, String)> = match only_line {
@@ -271,7 +278,7 @@ fn cmd_streams(args: &[String]) -> i32 {
         let line = line.unwrap();
         if let Some(p) = tlc_payload(&line, "EXPECT") {
             let v: Value = serde_json::from_str(&p).expect("EXPECT json");
-            expects.insert(v["t"].as_u64().unwrap(), v);
+            expects.insert(v["at"].as_u64().unwrap_or(v["t"].as_u64().unwrap()), v);
         }
     }
     let mut units = units::unit_list(&tier, seed);
@@ -299,6 +306,8 @@ fn cmd_streams(args: &[String]) -> i32 {
             let mut run = replay::Run::new(&uu, 0);
             run.exec(&mut ctx, &head);
             let mut t: u64 = 0;
+            let reset_at = sj["reset_at"].as_u64().unwrap_or(0);
+            let reset_line = json!({"ops": [{"op": "reset", "i": 1}], "obs": [{"t": 0}]});
             for seg in sj["sched"].as_array().unwrap() {
                 let pat: Vec<Value> = seg["pat"].as_array().unwrap().iter().map(|o| {
                     let mut o = o.clone();
@@ -337,6 +346,9 @@ fn cmd_streams(args: &[String]) -> i32 {
                             }
                         }
                         run.feed(&mut ctx, t as usize, op, ob);
+                        if reset_at > 0 && t == reset_at {
+                            run.exec(&mut ctx, &reset_line);
+                        }
                     }
                 }
             }
